@@ -368,6 +368,7 @@ def py_fullmatch(st, s):
 
 
 PLAIN = "abcXYZ019_ -.:;,/()[]{}=+*%$#@!?|~^"
+URI_PLAIN = "abcXYZ019_-./~ ()!*,;=+$@?"
 
 
 class SchemaGen:
@@ -390,7 +391,7 @@ class SchemaGen:
                         return {"s": s}
                 raise RuntimeError("no sample for " + stname)
             n = rng.choice([0, 1, 2, 5, 9])
-            return {"s": "".join(rng.choice(PLAIN) for _ in range(n))}
+            return {"s": "".join(rng.choice(URI_PLAIN if p == "anyURI" else PLAIN) for _ in range(n))}
         if p in ("float", "double"):
             if st["enums"]:
                 return {"f": repr(float(rng.choice(st["enums"])))}
@@ -404,6 +405,9 @@ class SchemaGen:
             cands = [0.0, 1.0, 0.5, 0.25, 0.125, 3.0, 12.5, 100.0, -1.0, -0.5, -7.25, 1023.0]
             ok = [x for x in cands if (lo is None or x > lo or (x == lo and not lo_open))
                   and (hi is None or x < hi or (x == hi and not hi_open))]
+            edge = [x for x in (lo, hi) if x is not None and x in ok]
+            if edge and rng.random() < 0.5:
+                return {"f": repr(rng.choice(edge))}       # the bounds themselves, where an off-by-one shows
             return {"f": repr(rng.choice(ok))}
         if p == "nonNegativeInteger":
             return {"i": rng.choice([0, 1, 2, 7, 1000])}
@@ -420,10 +424,16 @@ class SchemaGen:
             if st["enums"]:
                 out.append(("enumeration", {"s": st["enums"][0] + "_x"}))
             if st["patterns"]:
-                for cand in ("bad id!", "1.5 ??", "-", "#"):
-                    if not py_fullmatch(st, cand):
-                        out.append(("pattern", {"s": cand}))
-                        break
+                # a gross violation and near misses of a valid sample (a blank inside, a character appended/prepended)
+                good = sample_regex(st["patterns"][0], self.rng)
+                cands = ["bad id!", "1.5 ??", "a b", good + "!", "-" + good + "-", good[:1] + " " + good[1:], "9" + good, good + " x"]
+                k = 0
+                for cand in cands:
+                    if not py_fullmatch(st, cand) and all(32 <= ord(ch) < 127 for ch in cand):
+                        out.append(("pattern" if k == 0 else "pattern-near-miss%d" % k, {"s": cand}))
+                        k += 1
+                        if k >= 3:
+                            break
         elif p in ("float", "double"):
             if st["enums"]:
                 out.append(("enumeration", {"f": "0.5"}))
@@ -456,10 +466,9 @@ class SchemaGen:
             if a["required"] or rich or rng.random() < 0.4:
                 kw.append([a["py"], self.good_value(a["st"], a["kind"])])
         counts = {}
+        force = force or {}
         for k in self.L.chain(c):
-            self.fill(self.L.ct[k]["content"], depth, rich, counts)
-        if force:
-            counts.update(force)
+            self.fill(self.L.ct[k]["content"], depth, rich, counts, force)
         for e in self.L.all_elems(c):
             n = counts.get(e["tag"], 0)
             if n == 0:
@@ -475,15 +484,18 @@ class SchemaGen:
         rng.shuffle(kw)
         return {"cls": c, "kw": kw}
 
-    def fill(self, p, depth, rich, counts):
-        """choose how many children each element declaration gets (into counts[tag])"""
+    def fill(self, p, depth, rich, counts, force):
+        """choose how many children each element declaration gets (into counts[tag]); force[tag] fixes a count and
+        steers the choices so that the forced children are legal"""
         rng = self.rng
         if p is None:
             return
         k = p[0]
         if k == "elem":
             tag, ty, lo, hi = p[1], p[2], p[3], p[4]
-            if depth <= 0 and ty in self.L.ct:
+            if tag in force:
+                n = force[tag]
+            elif depth <= 0 and ty in self.L.ct:
                 n = lo
             else:
                 top = lo + 2 if hi is None else min(hi, lo + 2)
@@ -491,27 +503,39 @@ class SchemaGen:
             counts[tag] = counts.get(tag, 0) + n
         elif k in ("seq", "all"):
             for q in p[1]:
-                self.fill(q, depth, rich, counts)
+                self.fill(q, depth, rich, counts, force)
         elif k == "choice":
             lo, hi, alts = p[1], p[2], p[3]
+            tags = [[t for t, _, _, _, _ in flat_elems(a)] for a in alts]
+            wanted = [i for i, ts in enumerate(tags) if any(force.get(t, 0) > 0 for t in ts)]
+            banned = [i for i, ts in enumerate(tags) if any(force.get(t, 1) == 0 for t in ts)]
+            if wanted:
+                a = alts[wanted[0]]
+                if a[0] == "elem":
+                    self.fill(a, depth, rich, counts, force)
+                else:                      # a fixed group: as many repetitions as its forced member asks for
+                    n = max(force.get(t, 0) for t in tags[wanted[0]])
+                    for t in tags[wanted[0]]:
+                        counts[t] = counts.get(t, 0) + (n if t not in force else force[t])
+                return
             reps = lo if (hi == lo or depth <= 0) else rng.choice([lo, lo + 1, lo + 2])
             used_seq = False
             for _ in range(reps):
-                cand = [a for a in alts if not (a[0] == "seq" and used_seq)]
-                # an element alternative that would need an object below the depth bound is still taken when required
+                cand = [a for i, a in enumerate(alts) if not (a[0] == "seq" and used_seq) and i not in banned] or \
+                    [a for a in alts if not (a[0] == "seq" and used_seq)]
                 a = rng.choice(cand)
                 if a[0] == "seq":
                     used_seq = True       # the writer groups children by member: a second pair would be written f f r r
-                self.fill_once(a, depth, rich, counts)
+                self.fill_once(a, depth, rich, counts, force)
         elif k == "any":
             return
 
-    def fill_once(self, a, depth, rich, counts):
+    def fill_once(self, a, depth, rich, counts, force):
         """one occurrence of a choice alternative"""
         if a[0] == "elem" and a[4] == 1 and a[3] == 1:
             counts[a[1]] = counts.get(a[1], 0) + 1
         else:
-            self.fill(a, depth, rich, counts)
+            self.fill(a, depth, rich, counts, force)
 
     # ---- placing a tree below parents
     def embed(self, tree, steps):
@@ -519,9 +543,8 @@ class SchemaGen:
         Returns (root tree, path from the root to the embedded tree as [[member, index|None]..])"""
         path = []
         for parent, e in steps:
-            p = self.tree(parent, 0, force={e["tag"]: 0})
+            p = self.tree(parent, 0, force={e["tag"]: 1})     # a choice around e is steered to e's alternative
             p["kw"] = [kv for kv in p["kw"] if kv[0] != e["py"]]
-            # keep the parent's other constraints: a choice around e is satisfied by e itself
             if e["kind"] == "objlist":
                 p["kw"].append([e["py"], {"l": [tree]}])
                 path.insert(0, [e["py"], 0])
